@@ -190,7 +190,7 @@ impl Ctx {
         for k in &self.known {
             if k.property == self.prop && k.status == "open" && k.key == v.key {
                 if self.report.known_hit.insert(v.key.clone()) {
-                    println!("KNOWN-FINDING: property={} {} [{}]", self.prop, k.description, v.key);
+                    println!("KNOWN-FINDING: property={} {} -- {}", self.prop, v.key, k.description);
                 }
                 return;
             }
